@@ -21,7 +21,9 @@ FORGERIES = [
     "auth_cleared_cipher_malleated", "auth_cleared_cipher_malleated_digest_kept", "auth_cleared_plain", "auth_cleared_attacker_octets",
     "priv_flag_kept_plaintext_signed_by_auth_key_holder",
     "report_known_oid", "report_unknown_oid", "report_response_bindings", "report_authflag_baddigest",
-    "report_empty_bindings", "report_error_status_nosuchname", "report_error_status_toobig", "response_as_report_tag",
+    "report_empty_bindings", "report_error_status_nosuchname", "report_error_status_toobig", "report_boots_ahead",
+    "report_time_ahead", "response_as_report_tag", "flags2_plain_any_level", "flags0_plain_tag_trap", "flags0_plain_tag_inform",
+    "flags0_plain_tag_getrequest", "flags0_plain_tag_setrequest",
 ]
 OPS = ["get", "multiget", "getnext", "set", "bulkget", "walk"]
 HASHES = ["md5", "sha1"]
@@ -76,6 +78,9 @@ def _units(tier: str) -> List[Tuple[int, dict]]:
         # unprotected phase may weaken the protected one
         for name in FORGERIES:
             units.append((si, {"kind": "forge", "name": name, "prior": "noauth"}))
+        # an attacker who cannot compute the digest can still try every value of a ONE-octet digest on altered content
+        for start in range(0, 256, 64):
+            units.append((si, {"kind": "digest1", "values": [start, start + 64]}))
     return units
 
 
@@ -177,9 +182,22 @@ def _run(plan: dict, rewrite: Any) -> dict:
         exc, hang = e, True      # a spin in the client: C20's subject; no forged data was accepted
     except Exception as e:  # noqa: BLE001
         exc = e
+    follow = None
     if not hang:
         w.settle()
+        # the attack is over: the next request on the same client must work as if nothing had happened (no state
+        # may have been adopted from a message that was not authentic)
+        armed[0] = False
+        from ..world import OID as _OID2, to_ref as _to_ref
+        try:
+            follow = ("ok", _to_ref(w.run_budgeted(client.get(_OID2(BASE + (1, 2, 1))), 400_000)))
+        except BudgetExceeded:
+            follow = ("hang",)
+        except Exception as e:  # noqa: BLE001
+            follow = ("exc", type(e).__name__, str(e)[:100])
+        w.settle()
     out = {"res": res, "exc": exc, "seen": seen, "hang": hang, "digest": w.net.digest(), "delivered": delivered["n"],
+           "follow": follow,
            "sim_s": w.loop.time(), "exchanges": agent.exchanges, "agent_engine": agent.engine_id, "target_shift": target_shift[0],
            "counters": dict(w.net.counters)}
     w.close()
@@ -189,7 +207,7 @@ def _run(plan: dict, rewrite: Any) -> dict:
 FORGED_VALUE = ("str", b"FORGED-BY-ATTACKER")
 
 
-def _forge(name: str, plan: dict, raw: bytes, agent: Any) -> Optional[bytes]:
+def _forge(name: str, plan: dict, raw: bytes, agent: Any, digest_octet: int = 1) -> Optional[bytes]:
     """Build a forgery from the authentic response *raw* without using the user's keys."""
     sc = plan["scenario"]
     msg = S.decode_message(raw)
@@ -226,6 +244,13 @@ def _forge(name: str, plan: dict, raw: bytes, agent: Any) -> Optional[bytes]:
     level = sc["level"]
     if name == "flags0_plain":
         return build(0, b"", scoped)
+    if name == "flags2_plain_any_level":
+        # msgFlags 0x02 (privacy without authentication) is not a security level at all; with a plaintext scoped PDU
+        return build(2, b"", scoped)
+    if name.startswith("flags0_plain_tag_"):
+        tag = {"trap": S.PDU_TRAP2, "inform": S.PDU_INFORM, "getrequest": S.PDU_GET, "setrequest": S.PDU_SET}[name.rsplit("_", 1)[1]]
+        other = dict(forged_pdu, tag=tag)
+        return build(0, b"", S.enc_scoped(ctx_engine, ctx_name, S.enc_pdu(other)))
     if name == "flags0_digest_kept":
         return build(0, sec["auth"], scoped, sec["priv"])
     if name == "flags1_plain_forged":
@@ -236,7 +261,7 @@ def _forge(name: str, plan: dict, raw: bytes, agent: Any) -> Optional[bytes]:
         return build(4, b"", scoped)
     if name.startswith("digest_"):
         what = name.split("_", 1)[1]
-        d = {"empty": b"", "1": b"\x01", "6": b"\x00" * 6, "11": b"\x00" * 11, "zero12": b"\x00" * 12,
+        d = {"empty": b"", "1": bytes([digest_octet]), "6": b"\x00" * 6, "11": b"\x00" * 11, "zero12": b"\x00" * 12,
              "13": b"\x00" * 13, "random12": hashlib.md5(raw).digest()[:12]}[what]
         data = scoped if level == 1 else B.enc_str(scoped)  # for priv users: "ciphertext" = attacker bytes
         return build(level, d, data, sec["priv"])
@@ -292,6 +317,8 @@ def _forge(name: str, plan: dict, raw: bytes, agent: Any) -> Optional[bytes]:
             vbs = [((1, 3, 6, 1, 4, 1, 9999, 1, 0), ("c32", 7))]
         elif name == "report_empty_bindings":
             vbs = []
+        elif name in ("report_boots_ahead", "report_time_ahead"):
+            vbs = [(stat, ("c32", 7))]
         elif name.startswith("report_error_status"):
             vbs = [(o, ("null", None)) for o, _ in authentic_pdu["vbs"]]
         else:
@@ -304,6 +331,14 @@ def _forge(name: str, plan: dict, raw: bytes, agent: Any) -> Optional[bytes]:
         sc_bytes = S.enc_scoped(ctx_engine, ctx_name, S.enc_pdu(rep))
         if name == "report_authflag_baddigest":
             return signed(1, wrong_key, sc_bytes)
+        if name in ("report_boots_ahead", "report_time_ahead"):
+            # an unauthenticated Report announcing a later boot cycle / clock: nothing of it may be adopted
+            s2 = dict(sec, auth=b"", priv=b"")
+            if name == "report_boots_ahead":
+                s2["boots"] = sec["boots"] + 5
+            else:
+                s2["time"] = sec["time"] + 100000
+            return S.enc_v3_msg(msg["msg_id"], 65507, 0, 3, S.enc_usm_params(s2), sc_bytes)
         return build(0, b"", sc_bytes)
     raise ValueError(name)
 
@@ -335,6 +370,9 @@ def execute(plan: dict) -> dict:
             for byte in range(attack["bytes"][0], min(attack["bytes"][1], len(R))):
                 for bit in range(8):
                     todo.append(("flip %d.%d" % (byte, bit), (byte, bit)))
+        elif attack["kind"] == "digest1":
+            for v in range(attack["values"][0], attack["values"][1]):
+                todo.append(("one-octet digest %02x on altered content" % v, ("d1", v)))
         elif attack["kind"] == "flip1":
             if attack["byte"] < len(R):
                 todo.append(("flip %d.%d" % (attack["byte"], attack["bit"]), (attack["byte"], attack["bit"])))
@@ -344,7 +382,12 @@ def execute(plan: dict) -> dict:
         auth_off = parsed["auth_off"][0]
         data_start = parsed["root"].children[3].start
     for label, arg in todo:
-        if arg is not None:
+        if arg is not None and arg[0] == "d1":
+            def rewrite(data: bytes, agent: Any, v: int = arg[1]) -> Optional[bytes]:
+                return _forge("digest_1", plan, data, agent, digest_octet=v)
+            arg = None
+            attack = dict(attack, name="digest_1")
+        elif arg is not None:
             byte, bit = arg
 
             def rewrite(data: bytes, agent: Any, byte: int = byte, bit: int = bit) -> Optional[bytes]:
@@ -376,6 +419,9 @@ def execute(plan: dict) -> dict:
             probes["forgery_delivered"] = 1
             probes["report_forgery"] |= int(is_report)
             probes["downgrade_forgery"] |= int(attack["name"].startswith(("flags", "priv_cleared", "auth_cleared")))
+        if not t["hang"] and t["follow"] != base["follow"]:
+            fail("poisoned-by-unauthentic-message", "%s: the next request on the same client gave %r, after the un-attacked "
+                 "exchange it gives %r" % (label, t["follow"], base["follow"]))
         if t["exc"] is None:
             if is_report:
                 fail("report-accepted", "%s: an unauthenticated Report was returned as a result: %r" % (label, t["res"]))
